@@ -315,6 +315,72 @@ fn check_rename(mapfile: &str, nodes: &[Node], choices: &[u32]) -> Option<Failur
     }
 }
 
+
+// ---------------------------------------------------------------------------------------------
+// family (b): "register and instruction aliases only in their own language".  Old-format ECL files have two
+// languages in one source (subs: ECL, `script`s: timeline).  Full product over, for each of two spellings, the
+// set of languages whose mapfile section defines it (none / ECL / timeline / both, with different opcodes), the
+// order of the mapfile sections, the spelling used in the sub and in the timeline, and a register alias (ECL
+// only) used as an argument at either site.  Oracle: compile succeeds iff every use names an alias of its own
+// language, and then the opcodes read back by M2 are the ones its own language maps the spelling to.
+
+#[derive(Debug, Clone)]
+struct LangCase { game: &'static str, st: [u8; 2], tl_first: bool, sub_name: usize, tl_name: usize, reg_site: u8 /* 0 none, 1 sub, 2 timeline */ }
+
+const LNAMES: [&str; 2] = ["nX", "nY"];
+const ECL_OPS: [u16; 2] = [910, 911];
+const TL_OPS: [u16; 2] = [913, 914];
+
+fn lang_case_text(c: &LangCase) -> (String, String) {
+    let mut ecl = String::from("!ins_names\n"); let mut tl = String::from("!timeline_ins_names\n");
+    for i in 0..2 {
+        if c.st[i] & 1 != 0 { ecl.push_str(&format!("{} {}\n", ECL_OPS[i], LNAMES[i])); }
+        if c.st[i] & 2 != 0 { tl.push_str(&format!("{} {}\n", TL_OPS[i], LNAMES[i])); }
+    }
+    ecl.push_str("!ins_signatures\n910 SS\n911 SS\n912 SS\n!gvar_names\n-10001 rAlias\n!gvar_types\n-10001 $\n");
+    tl.push_str("!timeline_ins_signatures\n913 SS\n914 SS\n915 SS\n");
+    let map = if c.tl_first { format!("!eclmap\n{tl}{ecl}") } else { format!("!eclmap\n{ecl}{tl}") };
+    let sub_arg = if c.reg_site == 1 { "rAlias" } else { "1" };
+    let tl_arg = if c.reg_site == 2 { "rAlias" } else { "3" };
+    let src = format!("void sub0() {{ {}({sub_arg}, 2); ins_912(5, 6); }}\nscript timeline0 {{ {}({tl_arg}, 4); ins_915(7, 8); }}\n", LNAMES[c.sub_name], LNAMES[c.tl_name]);
+    (map, src)
+}
+
+fn check_lang_case(c: &LangCase) -> (String, Option<Failure>) {
+    use crate::drive::{self, CompileOpts, Kind, Tool};
+    let (map, src) = lang_case_text(c);
+    let game = c.game.parse::<truth::Game>().unwrap();
+    let tool = Tool::new(Kind::Ecl, game);
+    let out = drive::compile(tool, src.as_bytes(), &CompileOpts { mapfiles: vec![&map], ..Default::default() });
+    let expect_ok = c.st[c.sub_name] & 1 != 0 && c.st[c.tl_name] & 2 != 0 && c.reg_site != 2;
+    let detail = |extra: serde_json::Value| json!({"family": "lang", "game": c.game, "mapfile": map, "source": src, "case": format!("{:?}", c), "expected_to_compile": expect_ok, "diag": out.diag, "info": extra});
+    let sig = |what: &str| format!("C10:lang:{what}:{}:st={}{}:{}:sub={}:tl={}:reg={}", c.game, c.st[0], c.st[1], if c.tl_first { "tl-first" } else { "ecl-first" }, LNAMES[c.sub_name], LNAMES[c.tl_name], c.reg_site);
+    if let Some(p) = &out.panic { return ("lang:panic".into(), Some(Failure { signature: sig(&p.signature()), detail: detail(json!({"panic": p.text})) })); }
+    match (&out.bytes, expect_ok) {
+        (None, false) => {
+            if out.has_error_diag() { ("lang:rejected-as-expected".into(), None) } else { ("lang:rejected-silently".into(), Some(Failure { signature: sig("rejected-without-error"), detail: detail(json!({})) })) }
+        },
+        (None, true) => ("lang:rejects-own-language-alias".into(), Some(Failure { signature: sig("rejects-own-language-alias"), detail: detail(json!({})) })),
+        (Some(_), false) => ("lang:accepts-foreign-alias".into(), Some(Failure { signature: sig("accepts-foreign-language-alias"), detail: detail(json!({})) })),
+        (Some(bytes), true) => {
+            let w = match crate::m2::walk_ecl(bytes, game) { Ok(w) => w, Err(e) => return ("lang:unreadable".into(), Some(Failure { signature: sig("output-unreadable-by-M2"), detail: detail(json!({"m2": e})) })) };
+            let got_sub = w.subs.get(0).and_then(|s| s.get(0)).map(|i| i.opcode);
+            let got_tl = w.timelines.get(0).and_then(|s| s.get(0)).map(|i| i.opcode);
+            let reg_ok = c.reg_site != 1 || w.subs.get(0).and_then(|s| s.get(0)).map(|i| i.args.len() >= 4 && i32::from_le_bytes([i.args[0], i.args[1], i.args[2], i.args[3]]) == -10001).unwrap_or(false);
+            if got_sub == Some(ECL_OPS[c.sub_name]) && got_tl == Some(TL_OPS[c.tl_name]) && reg_ok { ("lang:compiled-with-own-language-ids".into(), None) }
+            else { ("lang:wrong-id".into(), Some(Failure { signature: sig("alias-resolved-to-other-language"), detail: detail(json!({"sub_opcode": got_sub, "timeline_opcode": got_tl, "register_argument_ok": reg_ok})) })) }
+        },
+    }
+}
+
+fn lang_cases() -> Vec<LangCase> {
+    let mut v = vec![];
+    for game in ["th06", "th07", "th08"] { for s0 in 0..4u8 { for s1 in 0..4u8 { for tl_first in [false, true] { for sub_name in 0..2 { for tl_name in 0..2 { for reg_site in 0..3u8 {
+        v.push(LangCase { game, st: [s0, s1], tl_first, sub_name, tl_name, reg_site });
+    }}}}}}}
+    v
+}
+
 fn has_func(nodes: &[Node]) -> bool { nodes.iter().any(|n| match n { Node::Func { .. } => true, Node::Block(b) | Node::Loop(b) | Node::If(b) => has_func(b), _ => false }) }
 
 pub fn run(tier: &str) -> Report {
@@ -349,8 +415,20 @@ pub fn run(tier: &str) -> Report {
         rep.failures.extend(o.failures);
         if let Some(rn) = rn { rep.evaluations += 2; rep.traces_validated += 1; match rn { None => rep.outcome("rename:same"), Some(f) => { rep.outcome("rename:differs"); rep.failures.push(f); } } }
     }
+    // family (b): aliases per language (full product)
+    let lcases = lang_cases();
+    let lres = par_map(&lcases, Some(deadline), |_, c| check_lang_case(c));
+    for (i, r) in lres.into_iter().enumerate() {
+        let Some((class, f)) = r else { rep.cap_hit = Some("wall cap in (b)".into()); continue; };
+        rep.evaluations += 1; rep.states += 1; rep.transitions += 1; rep.traces_validated += 1;
+        if lcases[i].st.iter().any(|&s| s == 3) || lcases[i].reg_site != 0 { rep.nontrivial += 1; }
+        rep.outcome(&class);
+        if i % 401 == 0 { let (m, s) = lang_case_text(&lcases[i]); rep.sample(json!({"family": "lang", "game": lcases[i].game, "mapfile": m, "source": s, "class": class})); }
+        if let Some(f) = f { rep.failures.push(f); }
+    }
+    let n_lang = lcases.len();
     rep.exhaustive = true;
-    rep.bound_completed = format!("deviations<={bound}, <= {budget} nodes, nesting<={depth}; node kinds: use, local (with/without initialiser naming any pool name), const (literal or naming any pool name), block, if, loop, function (with/without parameter); name pool {:?} ('A' is also a register alias)", NAMES);
+    rep.bound_completed = format!("(b) aliases per language: full product of {n_lang} cases (3 games x per-spelling definition sets {{none, ECL, timeline, both}}^2 x mapfile section order x spelling used in sub x spelling used in timeline x register alias site); (a) deviations<={bound}, <= {budget} nodes, nesting<={depth}; node kinds: use, local (with/without initialiser naming any pool name), const (literal or naming any pool name), block, if, loop, function (with/without parameter); name pool {:?} ('A' is also a register alias)", NAMES);
     rep.rule = "E-DFS over scope trees; distinct = distinct rendered text; non-trivial = some declaration shadows an outer declaration or the register alias".into();
     rep.assumptions = vec!["M5 scope model (harness), written from the documented scoping rules and resolve/tests.rs expectations".into(), "same-block local/const name clashes, parameters redeclared in the function's top block, circular consts and consts naming a register are generated but only required not to crash".into()];
     rep.explanation = "Ok/Err of resolve_names vs M5; for accepted programs the def-equivalence classes of all identifier occurrences (via passes::debug::make_idents_unique) vs M5's bindings; for function-free resolvable programs, compiled instructions of P and of the injectively renamed program must be identical".into();
@@ -360,6 +438,16 @@ pub fn run(tier: &str) -> Report {
 pub fn replay(detail: &serde_json::Value) -> i32 {
     let table = Table::new(&TableCfg::FULL);
     let mapfile = table.mapfile_text(REGS);
+    if detail["family"].as_str() == Some("lang") {
+        let want = detail["case"].as_str().unwrap_or("");
+        for c in lang_cases() { if format!("{:?}", c) == want {
+            let (class, f) = check_lang_case(&c);
+            println!("class: {class}");
+            if let Some(f) = &f { println!("FAIL {}\n{}", f.signature, serde_json::to_string_pretty(&f.detail).unwrap()); }
+            return if f.is_some() { 1 } else { 0 };
+        }}
+        println!("case not in the enumerated set"); return 2;
+    }
     let choices: Vec<u32> = detail["choices"].as_array().map(|a| a.iter().map(|v| v.as_u64().unwrap() as u32).collect()).unwrap_or_default();
     let mut bad = 1;
     for (budget, depth) in [(6, 2), (8, 3)] {
